@@ -9,11 +9,15 @@
     (`C12_cursor_and_zero_len_not_in_semantics`: the whole chunked session is the same), and the
     zero-length flag matters to `feed` only for an empty chunk
     (`C12_zero_len_flag_irrelevant_on_nonempty_chunks`);
-  * the string-storage options (`dynamic`, `onDemand`, `deleteFrees`) change the allocation state.
-    `C12_storage_independent_partial` proves that hook calls (with the outputs they see), breaks
-    and result codes have the same effect under any two storage option sets.  The full statement
-    additionally needs a simulation through the buffer events (same counter and same bytes below
-    the counter on both sides); it is covered by the differential runs, not yet by a proof.
+  * the string-storage options (`dynamic`, `onDemand`, `deleteFrees`) change the allocation state
+    of the buffers.  `NmfuProps/C12Storage.lean` proves a refinement of the runtime model to a
+    semantics on storage-free stores (`C12_session_refines`) and from it
+    `C12_storage_independent`: for machines passing `safeCheck` and `idxFreeCheck`, any two
+    storage settings give the same codes, cursors, scalars, buffer lengths and contents on every
+    sequence of API calls.  A machine with an index expression `s[i]` is outside that theorem
+    (an index at or beyond the current length reads stale or uninitialised bytes, which do depend
+    on where the buffer lives): for those the differential runs are all there is.
+    `C12_storage_independent_partial` (events that touch no buffer, any machine) is kept.
 -/
 import NmfuProps.C10
 namespace Nmfu
